@@ -445,7 +445,7 @@ func boolBehaviours(withDone bool) []behaviour {
 }
 
 func buildLattice() []latCase {
-	var out []latCase
+	out := make([]latCase, 0, 140000)
 	states := propStates()
 	add := func(s latSpec, b behaviour, stName string, handlers bool) {
 		s.Effect, s.Result = b.effect, b.result
